@@ -90,31 +90,37 @@ impl<'a> DeserializationContext<'a> {
 }
 
 impl<'a> BinaryInput for DeserializationContext<'a> {
+    // NOTE: `current.pos` is relative to `current.start`, while `current.end` is an absolute offset into `input`
+
     fn read_u8(&mut self) -> Result<u8> {
-        if self.current.pos == self.current.end {
+        let at = self.current.start + self.current.pos;
+        if at >= self.current.end {
             Err(Error::InputEndedUnexpectedly)
         } else {
             self.current.pos += 1;
-            Ok(self.input[self.current.start + self.current.pos - 1])
+            Ok(self.input[at])
         }
     }
 
     fn read_bytes(&mut self, count: usize) -> Result<&[u8]> {
-        if self.current.pos + count > self.current.end {
-            Err(Error::InputEndedUnexpectedly)
-        } else {
-            let start = self.current.start + self.current.pos;
-            self.current.pos += count;
-            Ok(&self.input[start..(self.current.start + self.current.pos)])
+        let start = self.current.start + self.current.pos;
+        match start.checked_add(count) {
+            Some(end) if end <= self.current.end => {
+                self.current.pos += count;
+                Ok(&self.input[start..end])
+            }
+            _ => Err(Error::InputEndedUnexpectedly),
         }
     }
 
     fn skip(&mut self, count: usize) -> Result<()> {
-        if self.current.pos + count > self.current.end {
-            Err(Error::InputEndedUnexpectedly)
-        } else {
-            self.current.pos += count;
-            Ok(())
+        let start = self.current.start + self.current.pos;
+        match start.checked_add(count) {
+            Some(end) if end <= self.current.end => {
+                self.current.pos += count;
+                Ok(())
+            }
+            _ => Err(Error::InputEndedUnexpectedly),
         }
     }
 }
